@@ -65,6 +65,9 @@ def run(ctx, env):
     ctx.rule("R5.8", "a field value is reported as sent: in every arm of FieldValue::from_field_type (private helpers inlined) no arithmetic, clamping or narrowing cast is applied to a value read from the input bytes, and each dateTime kind gets its unit from the Duration constructor of that unit (shared with C04 R4.11)")
     from . import valuepath
     valuepath.rule(ctx, prog, an, "R5.8")
+    ctx.rule("R5.10", "records are all-or-nothing: a decode step whose failure is tolerated (taken as the start of padding) has not appended anything to the reported collection by the time it fails - helpers that fill an out-parameter either have their failure propagated or insert only after their last fallible step")
+    from . import consume as _cons
+    _cons.partial_output_rule(ctx, prog, an, "R5.10", lambda b: b.path.startswith(("variable_versions::ipfix::", "variable_versions::data_number::")))
     # R5.9
     ctx.rule("R5.9", "integers are decoded by DataNumber::parse: (width, signedness) -> a big-endian primitive of exactly that width and the like-named variant, sign-extended for signed kinds, without a narrowing cast; unsupported widths are rejected (shared with C04 R4.6: the IPFIX and V9 decoders use the same table)")
     from . import c04 as _c04
